@@ -60,51 +60,51 @@ const faultRule = " Fault runs (mode=faults): per-run budget of 1-3 faults drawn
 var plans = map[string]Plan{
 	"C15": {Jobs: []Job{{World: "wbuild", Params: "mode=twin,max_targets=5", Share: 0.6}, {World: "wbuild", Params: "mode=faults,load=minimal,max_targets=5,force=extfail", Share: 0.4}}, Level: "exploration",
 		Rule: buildRule + faultRule + " C15: twin worlds - the same universe and history run in lock-step on machine A (load_outputs=all) and machine B (minimal), separate caches and workspaces, independent schedules: same exit status, same multiset of executed commands, every materialised output of a selected target equal; in both worlds every executed command must find its direct dependencies' outputs (also through aliases) present and current; second job: minimal mode under cache faults.",
-		Real: realBuild, Stub: stubBuild, Assume: append([]string{"twin runs exclude features that make the two worlds legitimately diverge: commands changing the shared external state (checks), external failures, cache-disabled builds, fail-fast"}, buildAssume...), QuickS: 45, ThoroughS: 1200},
+		Real: realBuild, Stub: stubBuild, Assume: append([]string{"twin runs exclude features that make the two worlds legitimately diverge: commands changing the shared external state (checks), external failures, cache-disabled builds, fail-fast"}, buildAssume...), QuickS: 45, ThoroughS: 900},
 	"C08": {Jobs: []Job{{World: "wbuild", Params: "mode=remote,max_targets=5", Share: 0.4}, {World: "wbuild", Params: "mode=remote,max_targets=5,force=nonhermetic+taint+twins", Share: 0.25}, {World: "wbuild", Params: "mode=remote,focus=faults,max_targets=5", Share: 0.35}}, Level: "fault_enumeration",
 		Rule: buildRule + " C08: two machines with the same workspace identity (same absolute workspace path, checkouts swapped in and out, separate local cache roots) sharing an in-memory S3 object store behind grog's S3Client interface; histories interleave builds on A and B, edits, output wipes, and A optionally starting without the remote. After every successful build with the remote configured: every remote target result decodes and every blob it references (through trees) is present remotely; a machine may not execute what the remote certainly holds (shared cache model), restores byte-identical outputs, and its local cache holds the blobs it had to read. Fault runs: remote Get / Put (not applied, applied-but-error) / Head errors, mid-stream read errors, latency on the fake clock: degrade to a miss or a reported failure, never wrong bytes or a hang.",
-		Real: append([]string{"internal/caching/backends/remote_wrapper.go", "internal/caching/backends/s3.go (S3Cache key layout; NewS3CacheWithClient)"}, realBuild...), Stub: append([]string{"AWS SDK client: in-memory object store behind the S3Client interface (NewS3Cache's SDK construction replaced)", "GCS backend not simulated (no seam)"}, stubBuild...), Assume: buildAssume, QuickS: 45, ThoroughS: 1200},
+		Real: append([]string{"internal/caching/backends/remote_wrapper.go", "internal/caching/backends/s3.go (S3Cache key layout; NewS3CacheWithClient)"}, realBuild...), Stub: append([]string{"AWS SDK client: in-memory object store behind the S3Client interface (NewS3Cache's SDK construction replaced)", "GCS backend not simulated (no seam)"}, stubBuild...), Assume: buildAssume, QuickS: 45, ThoroughS: 900},
 	"C10": {Jobs: []Job{{World: "wlock", Params: "", Share: 0.8}, {World: "wbuild", Params: "mode=faults,focus=crash,max_targets=4", Share: 0.2}}, Level: "exploration",
 		Rule: "W-lock: 2-3 simulated processes (own pids in a simulated process table) run Lock -> critical section (0 / 5 ms / 1.5 s on the fake clock) -> Unlock, or exit without unlocking, or are killed at a drawn file-system step of Lock / section / Unlock; optional pre-existing lock file (dead pid, empty, garbage, a foreign live pid that dies after 2.5 s); every os call of the real WorkspaceLocker and its liveness probe is a sim point, so create->write-pid and read-stale->remove windows are ordinary interleavings. Invariant at every acquisition: at most one live process between Lock()==nil and Unlock(); liveness: every process that is not killed acquires (hang = no runnable task and no timer for 2 h simulated, or step budget). Second job: the real RunBuild call site with crashes (stale lock left by a killed build must not block the next one). non-trivial = >=2 contenders; distinct = distinct (case hash, schedule trace hash).",
 		Real: []string{"internal/locking (WorkspaceLocker)", "internal/config (lock file location)", "W-build job: the full build path (see C07)"}, Stub: []string{"process table, os.Getpid, os.FindProcess + Signal(0) (simos)", "PID reuse is not injected"}, Assume: commonAssume, QuickS: 30, ThoroughS: 900},
 	"C07": {Jobs: []Job{{World: "wbuild", Params: "mode=faults,focus=crash,max_targets=5", Share: 0.65}, {World: "wbuild", Params: "max_targets=5", Share: 0.15}, {World: "wkv", Params: "", Share: 0.2}, {World: "wbuild", Params: "max_targets=4", Share: 0.4, Kind: "sweep", ThoroughOnly: true}}, Level: "fault_enumeration",
 		Rule: buildRule + faultRule + " W-kv job: the file-system cache backend alone under 2-4 concurrent client processes issuing Set/Get/Exists/Delete on 2-3 keys with unique values, I/O faults and client crashes; the history (invoke/return stamped with scheduler event numbers; failed or cut operations possibly applied) is checked with porcupine against a per-key register, plus 'no value is read that no Set wrote'. Thorough tier only: crash sweep - for successive seeds a fault-free history is probed for the number of file-system operations of each build invocation, then replayed once per operation index (the two longest invocations) with the process killed exactly there (coverage key crash_sweep_points). C07: after EVERY invocation (also killed ones) an offline audit of the cache directory: every cas/<d> (not tmp-*) hashes to d, every target/<k> decodes and every blob it references (through trees) is present; the follow-up builds must satisfy C01.",
-		Real: append([]string{"internal/caching/backends/fs.go under concurrent clients (W-kv)"}, realBuild...), Stub: stubBuild, Assume: append([]string{"porcupine result Unknown (timeout) is inconclusive and never reported", "crash model is process death with the page cache intact (kill -9): every completed file-system operation survives; loss of un-fsynced data on power failure is outside the statement and not injected", "a crash also kills the running target shells"}, buildAssume...), QuickS: 45, ThoroughS: 1200},
+		Real: append([]string{"internal/caching/backends/fs.go under concurrent clients (W-kv)"}, realBuild...), Stub: stubBuild, Assume: append([]string{"porcupine result Unknown (timeout) is inconclusive and never reported", "crash model is process death with the page cache intact (kill -9): every completed file-system operation survives; loss of un-fsynced data on power failure is outside the statement and not injected", "a crash also kills the running target shells"}, buildAssume...), QuickS: 45, ThoroughS: 900},
 	"C18": {Jobs: []Job{{World: "wbuild", Params: "mode=faults,focus=signal,max_targets=5", Share: 0.6}, {World: "wbuild", Params: "mode=faults,focus=signal,max_targets=5,force=trapterm+timeouts", Share: 0.4}}, Level: "fault_enumeration",
 		Rule: buildRule + faultRule + " C18: SIGINT delivered through the real SetupCommand handler at a drawn step of loading / execution / output writing / shutdown: no command is forked after the handler task has finished, the process ends within 10 s simulated, no target shell is left running un-killed when the process exits (incl. shells that trap SIGTERM: only SIGKILL stops those), interrupted targets must execute again in the next build, which must acquire the (stale) lock and satisfy C01.",
-		Real: realBuild, Stub: append([]string{"that a real sh and its children die on kill (the simulated command dies at once)"}, stubBuild...), Assume: buildAssume, QuickS: 45, ThoroughS: 1200},
+		Real: realBuild, Stub: append([]string{"that a real sh and its children die on kill (the simulated command dies at once)"}, stubBuild...), Assume: buildAssume, QuickS: 45, ThoroughS: 900},
 	"C01": {Jobs: []Job{{World: "wbuild", Params: "max_targets=6", Share: 0.7}, {World: "wbuild", Params: "mode=faults,max_targets=5", Share: 0.3}, {World: "wbuild", Params: "max_targets=10,long=1", Share: 0.25, ThoroughOnly: true}}, Level: "exploration", Rule: buildRule + faultRule + " C01: after every build that exits 0 every declared output of every selected target equals the model's clean build; a target that must execute for lack of a result for its current state did execute.",
-		Real: realBuild, Stub: stubBuild, Assume: buildAssume, QuickS: 45, ThoroughS: 1200},
+		Real: realBuild, Stub: stubBuild, Assume: buildAssume, QuickS: 45, ThoroughS: 900},
 	"C02": {Jobs: []Job{{World: "wbuild", Params: "max_targets=6", Share: 0.55}, {World: "wbuild", Params: "load=minimal,max_targets=6", Share: 0.25}, {World: "wbuild", Params: "mode=faults,focus=damage,max_targets=5,force=nonhermetic+taint", Share: 0.2}, {World: "wbuild", Params: "max_targets=10,long=1", Share: 0.25, ThoroughOnly: true}}, Level: "exploration", Rule: buildRule + " C02: the set of commands executed by each build is compared with MUST-NOT (cached result for the current state, nothing forcing execution), incl. no-op rebuild, early cut-off (projected commands) and damaged output paths.",
-		Real: realBuild, Stub: stubBuild, Assume: buildAssume, QuickS: 45, ThoroughS: 1200},
+		Real: realBuild, Stub: stubBuild, Assume: buildAssume, QuickS: 45, ThoroughS: 900},
 	"C06": {Jobs: []Job{{World: "wbuild", Params: "max_targets=6", Share: 0.6}, {World: "wbuild", Params: "max_targets=4,force=dirs+bin+wsmut", Share: 0.4}, {World: "wbuild", Params: "max_targets=10,long=1", Share: 0.25, ThoroughOnly: true}}, Level: "exploration", Rule: buildRule + " C06: a restored (not executed) target's recursive listing (type, exec bit, content, link target, nothing extra) equals the clean build, from destination states absent / parent absent / modified / truncated / stale extra entries / file where a directory should be.",
-		Real: realBuild, Stub: stubBuild, Assume: buildAssume, QuickS: 45, ThoroughS: 1200},
+		Real: realBuild, Stub: stubBuild, Assume: buildAssume, QuickS: 45, ThoroughS: 900},
 	"C12": {Jobs: []Job{{World: "wbuild", Params: "max_targets=6", Share: 0.6}, {World: "wbuild", Params: "max_targets=7,force=alias+tags+tests+testonly+platforms", Share: 0.4}, {World: "wbuild", Params: "max_targets=10,long=1", Share: 0.25, ThoroughOnly: true}}, Level: "exploration", Rule: buildRule + " C12: executed commands are a subset of the model's selection closure, the number of selected targets logged by grog lies in [must, must+may], a platform-incompatible dependency aborts before any command.",
-		Real: realBuild, Stub: stubBuild, Assume: buildAssume, QuickS: 45, ThoroughS: 1200},
+		Real: realBuild, Stub: stubBuild, Assume: buildAssume, QuickS: 45, ThoroughS: 900},
 	"C13": {Jobs: []Job{{World: "wbuild", Params: "max_targets=6", Share: 0.4}, {World: "wbuild", Params: "max_targets=5,force=taint+flatnames+nocache-build+tags", Share: 0.35}, {World: "wbuild", Params: "load=minimal,max_targets=6,force=taint+nocache-build+tags", Share: 0.25}, {World: "wbuild", Params: "max_targets=10,long=1", Share: 0.25, ThoroughOnly: true}}, Level: "exploration", Rule: buildRule + " C13: tainted / no-cache / cache-disabled targets must execute, a consumed taint must not force a second execution, dependants only if outputs changed.",
-		Real: realBuild, Stub: stubBuild, Assume: buildAssume, QuickS: 45, ThoroughS: 1200},
+		Real: realBuild, Stub: stubBuild, Assume: buildAssume, QuickS: 45, ThoroughS: 900},
 	"C14": {Jobs: []Job{{World: "wbuild", Params: "max_targets=6", Share: 0.6}, {World: "wbuild", Params: "load=minimal,max_targets=6", Share: 0.15}, {World: "wbuild", Params: "mode=faults,load=minimal,max_targets=4,force=timeouts+extfail+checks", Share: 0.25}, {World: "wbuild", Params: "max_targets=10,long=1", Share: 0.25, ThoroughOnly: true}}, Level: "exploration", Rule: buildRule + " C14: targets that exit non-zero, time out on the fake clock, omit a declared output or fail an output check are never reported successful; a failing check forces execution although a cached result exists.",
-		Real: realBuild, Stub: stubBuild, Assume: buildAssume, QuickS: 45, ThoroughS: 1200},
+		Real: realBuild, Stub: stubBuild, Assume: buildAssume, QuickS: 45, ThoroughS: 900},
 	"C03": {
 		Jobs:  []Job{{World: "wdag", Params: "max_n=400", Share: 0.4}, {World: "wbuild", Params: "max_targets=6", Share: 0.3}, {World: "wbuild", Params: "load=minimal,max_targets=6", Share: 0.1}, {World: "wbuild", Params: "mode=faults,load=minimal,max_targets=5", Share: 0.2}, {World: "wbuild", Params: "max_targets=10,long=1", Share: 0.25, ThoroughOnly: true}},
 		Level: "exploration",
 		Rule: "seeded random graphs (chain/tree/layers/diamond/random DAG, 1..400 nodes quick, ..3000 thorough), selections closed under dependencies, num_workers 1..8, latencies incl. zero and ties, failure subsets, fail-fast on/off; each run = one seeded schedule of the real walker + worker pool. " +
 			"Checked at every start event: all direct dependencies finished successfully, no second start, running <= num_workers. non-trivial = >=2 callbacks started, >=1 edge and >=1 context switch; distinct = distinct (workload shape hash, schedule trace hash)",
-		Real: append(realDag, realBuild...), Stub: append(stubDag, stubBuild...), Assume: buildAssume, QuickS: 50, ThoroughS: 1200,
+		Real: append(realDag, realBuild...), Stub: append(stubDag, stubBuild...), Assume: buildAssume, QuickS: 50, ThoroughS: 900,
 	},
 	"C04": {
 		Jobs:  []Job{{World: "wdag", Params: "max_n=400", Share: 0.4}, {World: "wbuild", Params: "max_targets=6", Share: 0.15}, {World: "wbuild", Params: "mode=faults,max_targets=5", Share: 0.3}, {World: "wbuild", Params: "mode=faults,load=minimal,max_targets=5,force=extfail", Share: 0.15}},
 		Level: "exploration",
 		Rule: "W-build fault runs: cache read faults at every depth of an output restore (target result, tree blob, k-th file blob), see C07 for the fault catalogue. same workloads as C03 plus external cancellation; violation classes: hang (no runnable task and no pending timer for 2h simulated, or step budget), panic in grog code, concurrent map access (write-window monitor = the interleavings on which the Go runtime throws), unresolved / inconsistent completion map on return. " +
 			"non-trivial and distinct as for C03",
-		Real: append(realDag, realBuild...), Stub: append(stubDag, stubBuild...), Assume: buildAssume, QuickS: 50, ThoroughS: 1200,
+		Real: append(realDag, realBuild...), Stub: append(stubDag, stubBuild...), Assume: buildAssume, QuickS: 50, ThoroughS: 900,
 	},
 	"C05": {
 		Jobs:  []Job{{World: "wdag", Params: "max_n=400", Share: 0.5}, {World: "wbuild", Params: "max_targets=6", Share: 0.5}, {World: "wbuild", Params: "max_targets=10,long=1", Share: 0.25, ThoroughOnly: true}},
 		Level: "exploration",
 		Rule: "same workloads as C03 with failing subsets in both failure modes; keep-going: executed set == selected targets without failed transitive dependency, error summary names exactly the failed ones; fail-fast: no callback entered with a live context after a failing target's routine returned. " +
 			"non-trivial and distinct as for C03",
-		Real: append(realDag, realBuild...), Stub: append(stubDag, stubBuild...), Assume: buildAssume, QuickS: 50, ThoroughS: 1200,
+		Real: append(realDag, realBuild...), Stub: append(stubDag, stubBuild...), Assume: buildAssume, QuickS: 50, ThoroughS: 900,
 	},
 }
 
